@@ -4,6 +4,7 @@ import (
 	"fmt"
 	"math"
 	"strings"
+	"unicode/utf8"
 
 	"github.com/robertkrimen/otto/token"
 )
@@ -160,8 +161,7 @@ func calculateLessThan(left Value, right Value, leftFirst bool) lessThanResult {
 		}
 		result = x < y
 	} else {
-		x, y := x.string(), y.string()
-		result = x < y
+		result = lessThanUTF16(x.string(), y.string())
 	}
 
 	if result {
@@ -169,6 +169,28 @@ func calculateLessThan(left Value, right Value, leftFirst bool) lessThanResult {
 	}
 
 	return lessThanFalse
+}
+
+// lessThanUTF16 reports whether x sorts before y as a sequence of UTF-16 code units,
+// the order ECMA-262 11.8.5 step 4 prescribes. Comparing the UTF-8 bytes orders by code point,
+// which differs when a character outside the BMP (a surrogate pair, first unit 0xD800-0xDBFF)
+// meets one in U+E000-U+FFFF.
+func lessThanUTF16(x, y string) bool {
+	for len(x) > 0 && len(y) > 0 {
+		rx, nx := utf8.DecodeRuneInString(x)
+		ry, ny := utf8.DecodeRuneInString(y)
+		if rx != ry {
+			if (rx >= 0x10000) != (ry >= 0x10000) {
+				if rx >= 0x10000 {
+					return ry >= 0xE000
+				}
+				return rx < 0xD800
+			}
+			return rx < ry
+		}
+		x, y = x[nx:], y[ny:]
+	}
+	return len(x) < len(y)
 }
 
 // FIXME Probably a map is not the most efficient way to do this.
